@@ -35,14 +35,19 @@ Forms   == IF Tier = "quick" THEN {"evyq_text", "textq_evy", "svg"}
            ELSE {"evyq_text", "evyq_inline", "textq_evy", "link", "svg"}
 
 Marks(a, f) == {s \in SUBSET LettersOf(f) : s # {} /\ (a = "single-choice" => Cardinality(s) = 1)}
-Question(f, a, n, o, m) == [form |-> f, atype |-> a, n |-> n, out |-> o, marked |-> m]
+\* how the marked letters are spelled in the front matter: all in lower case (the defined form), or the first /
+\* the last of them in upper case.  Whether an upper-case letter is refused when the question is read or stands
+\* for its choice is not laid down; what the property lays down is that the question is never ACCEPTED unless
+\* the letters, read as choices, are exactly the matching ones
+Spellings == {"lower", "upperfirst", "upperlast"}
+Question(f, a, n, o, m, sp) == [form |-> f, atype |-> a, n |-> n, out |-> o, marked |-> m, spell |-> sp]
 
 VARIABLES pc, q, marked, matching, verdict
 vars == <<pc, q, marked, matching, verdict>>
 
 \* every cell: form x answer type x number of choices x assignment of outputs x marked set
 Init == /\ \E n \in 2..MaxN : \E a \in {"single-choice", "multiple-choice"} : \E f \in Forms :
-             \E o \in [1..n -> OutputsOf(f)] : \E m \in Marks(a, f) : q = Question(f, a, n, o, m)
+             \E o \in [1..n -> OutputsOf(f)] : \E m \in Marks(a, f) : \E sp \in Spellings : q = Question(f, a, n, o, m, sp)
         /\ pc = "read" /\ marked = {} /\ matching = {} /\ verdict = "none"
 
 ReadAnswer == /\ pc = "read" /\ marked' = q.marked /\ pc' = "run"
@@ -72,5 +77,6 @@ Class == "verify:" \o (IF q.atype = "single-choice" THEN "single" ELSE "multi")
 
 Emit == pc = "done" =>
           PrintT(ToJson([form |-> q.form, atype |-> q.atype, n |-> q.n, out |-> q.out, marked |-> q.marked,
-                         matching |-> matching, expect |-> verdict, class |-> Class]))
+                         matching |-> matching, expect |-> verdict, spell |-> q.spell,
+                         class |-> Class \o (IF q.spell = "lower" THEN "" ELSE ":" \o q.spell)]))
 =============================================================================
